@@ -1246,6 +1246,8 @@ class Interp:
                 env = cp if f.args[0][1].startswith('&') else clo
                 yield from self.invoke(name, [env] + list(args), st, fr.tenv if fr else {}, (fr.depth + 1) if fr else 0)
                 return
+        if isinstance(clo, Agg) and ' as fn(' in clo.name and clo.fields and isinstance(clo.fields[0], FnItem):
+            clo = clo.fields[0]          # function item reified to a function pointer (`f as fn(..) -> ..`)
         if isinstance(clo, FnItem):
             dummy = fr
             yield from self.call(fr, clo.name, list(args), st)
